@@ -375,6 +375,10 @@ class PyEval(MiniEval):
             return list(A()[0]) if fn == "list" else tuple(A()[0])
         if fn in ("min", "max") and node.args and all(isinstance(x, (int, float)) for x in A()):
             return (min if fn == "min" else max)(A())
+        if fn == "sum" and len(node.args) == 1 and isinstance(A()[0], list) and all(isinstance(x, (int, float)) for x in A()[0]):
+            return sum(A()[0])
+        if fn == "range" and node.args and all(isinstance(x, int) for x in A()) and abs(A()[-1]) < 10000:
+            return list(range(*A()))
         # repository function?
         if isinstance(node.func, ast.Name):
             q = self.idx.resolve_name(self.module, node.func.id)
